@@ -262,6 +262,9 @@ def mk_table(rng, name, spec, nrows, null_rate=0.25, uid=None):
     return {"name": name, "spec": spec, "rows": rows}
 
 
+_KEYSHAPE_TURN = [0]
+
+
 def target_case(rng, kind):
     """(script, tables, info) for one targeted shape"""
     T = lambda n: {"op": "table", "name": n}
@@ -293,7 +296,9 @@ def target_case(rng, kind):
         # non-key columns of the other side, same-named mixed with renamed pairs, random injective pairings; all four join types, null
         # keys (also on both sides: marker path).  Which suffixed copies merge produces is decided pair by pair (seeded C08-m3)
         kt = rng.choice(["int", "str"])
-        shape = rng.choice(["crossed", "chained", "overlap", "mixed", "mixed2", "random", "random"])
+        shapes = ["crossed", "chained", "overlap", "mixed", "mixed2", "random", "random"]
+        _KEYSHAPE_TURN[0] += 1                          # every shape in turn, so that each run has all of them
+        shape = shapes[_KEYSHAPE_TURN[0] % len(shapes)]
         pool = ["a", "b", "c"]
         if shape == "crossed":
             pairs, lneed, rneed = [("a", "b"), ("b", "a")], ["a", "b"], ["a", "b"]
